@@ -24,6 +24,8 @@ def build(cfg):
         kw = {}
         if rar is not None:
             kw = dict(rar_parameters=dict(rar), nt_start=cfg["nt_start"])
+        elif cfg.get("nt_start") is not None:
+            kw = dict(nt_start=cfg["nt_start"])  # documented as ignored without RAR
         return jinns.data.DataGeneratorODE(
             k, cfg["nt"], cfg.get("tmin", 0.0), cfg.get("tmax", 1.0), cfg["bt"], cfg.get("method", "uniform"), **kw
         )
@@ -42,6 +44,8 @@ def build(cfg):
         )
         if rar is not None:
             kw.update(rar_parameters=dict(rar), n_start=cfg["n_start"])
+        elif cfg.get("n_start") is not None:
+            kw.update(n_start=cfg["n_start"])  # documented as ignored without RAR
         if kind == "statio":
             return jinns.data.CubicMeshPDEStatio(**kw)
         kw.update(
@@ -51,7 +55,7 @@ def build(cfg):
             tmax=cfg.get("tmax", 1.0),
             cartesian_product=cfg.get("cartesian", True),
         )
-        if rar is not None:
+        if rar is not None or cfg.get("nt_start") is not None:
             kw.update(nt_start=cfg["nt_start"])
         return jinns.data.CubicMeshPDENonStatio(**kw)
     if kind == "obs":
